@@ -644,7 +644,8 @@ fn mat_line(m: &Matrix3<f64>) -> String {
 
 fn gen_wred(rng: &mut Rng, count: usize, out: &mut Vec<String>) {
     // a clean strongly skewed basis: a = (1,0,0), b = (0,1,0), c = (N,0,1)
-    for n in ["1000", "100000", "10000000"] {
+    // (the last one needs transformation entries beyond i32)
+    for n in ["1000", "100000", "10000000", "3000000000"] {
         for alg in ["mink", "niggli", "delaunay"] {
             out.push(format!("wred {} 1 0 {} 0 1 0 0 0 1", alg, n));
         }
